@@ -13,6 +13,7 @@ import AdaptiveModel.Drv.Integ
 import AdaptiveModel.Drv.Prims
 import AdaptiveModel.Drv.Quad
 import AdaptiveModel.Drv.Choose
+import AdaptiveModel.Drv.L2D
 /-!
 Line-protocol driver: `lake env lean --run Driver.lean < ops.txt`.
 Each input line is `<component> <op> <args…>`; one output line per input line.
@@ -28,6 +29,7 @@ structure All where
   lnd : LND.Drv.D := {}
   tri : Tri.State := { dim := 2, nVerts := 0, simplices := [], vts := [] }
   integ : Integ.Drv.D := {}
+  l2d : L2D.Drv.D := {}
   run : Runner.State := Runner.init { ntasks := 1, retries := 0, raiseIf := true, blocking := true, doLog := false }
 
 def stepAll (a : All) (line : String) : All × String :=
@@ -47,6 +49,7 @@ def stepAll (a : All) (line : String) : All × String :=
   | "prims" :: rest => (a, Prims.Drv.stepLine rest)
   | "quad" :: rest => (a, Quad.Drv.stepLine rest)
   | "choose" :: rest => (a, Choose.Drv.stepLine rest)
+  | "l2d" :: rest => let (s, o) := L2D.Drv.stepLine a.l2d rest; ({ a with l2d := s }, o)
   | _ => (a, "bad-component")
 
 partial def loop (h : IO.FS.Stream) (out : IO.FS.Stream) (a : All) : IO Unit := do
